@@ -15,6 +15,30 @@ add("C18",
     Mutant("twin: the gate flag passed positionally",
            (B, 'self.compose_subcircuits(categories["EBLIF.gate"], is_gate=True)', 'self.compose_subcircuits(categories["EBLIF.gate"], True)'), None))
 
+BP = "spydrnet/parsers/eblif/eblif_parser.py"
+_UNCONN_OLD = """                try:
+                    instance[et.UNCONN]
+                except KeyError:
+                    instance[et.UNCONN] = []
+                instance[et.UNCONN].append(port_name + "[" + str(pin_index) + "]")
+                continue
+"""
+add("C18",
+    Mutant("B9 only the first open actual of an instance is skipped (seeded C18-w3A)",
+           (BP, _UNCONN_OLD, """                pin_label = port_name + "[" + str(pin_index) + "]"
+                try:
+                    instance[et.UNCONN].append(pin_label)
+                except KeyError:
+                    instance[et.UNCONN] = [pin_label]
+                    continue
+"""), "B9|"),
+    Mutant("twin: the open-actual bookkeeping with a membership test, still leaving the iteration",
+           (BP, _UNCONN_OLD, """                if et.UNCONN not in instance:
+                    instance[et.UNCONN] = []
+                instance[et.UNCONN].append(port_name + "[" + str(pin_index) + "]")
+                continue
+"""), None))
+
 add("C03",
     Mutant("B4 member index offset by the port's base index",
            (E, """            for x in range(len(inner_pin.port.pins)):
